@@ -135,6 +135,20 @@ def gen_ohlcv(rng, n, regime=None):
         for f in 'ohl':
             s[f] = [q(max(1 / 64.0, x + rng.uniform(-0.08, 0.08) * base)) for x in s['c']]
         return s, regime
+    if regime == 'zeroquote':
+        # missing quotes recorded as 0 (whole bar, or only the close / the volume): ratios divide by zero there, and the
+        # IEEE results (Inf, NaN) are as unit-independent as any other value (C18 only)
+        s, _ = gen_ohlcv(rng, n, rng.choice(['walk', 'wide']))
+        for i in range(n):
+            r_ = rng.random()
+            if r_ < 0.08:
+                for f in 'ohlc':
+                    s[f][i] = 0.0
+            elif r_ < 0.12:
+                s['c'][i] = 0.0
+            elif r_ < 0.16:
+                s['v'][i] = 0.0
+        return s, regime
     if regime == 'touch':
         # whole-number prices in a narrow band: closes land exactly on bands, extremes and earlier closes
         base = float(rng.choice([8, 10, 50]))
@@ -241,5 +255,5 @@ def make_inputs(rng, name, n, regime=None):
         for k in kinds:
             streams.append([float(i + 1) for i in range(n)] if k == 'x' else vals)
         return streams, reg, None
-    s, reg = gen_ohlcv(rng, n, regime if regime in REGIMES + ['anyorder'] else None)
+    s, reg = gen_ohlcv(rng, n, regime if regime in REGIMES + ['anyorder', 'zeroquote'] else None)
     return [s[k] for k in kinds], reg, s
